@@ -6,7 +6,7 @@ that matches fewer instances than its floor fails closed.
 import re
 from collections import defaultdict
 
-from mirlib import (callee_path, callee_decl_path, callee_ty_args, op_place, op_local, op_int,
+from mirlib import (feasible_reach, callee_path, callee_decl_path, callee_ty_args, op_place, op_local, op_int,
                     local_defs, single_def, trace_value, fmt_span, place_str, op_str)
 
 
@@ -263,7 +263,15 @@ def rule_prim(ctx, crate):
             ctx.add(['C04', 'C07'], 'R-PRIM', PRIM + name, 'the pointer is not `data + offset` exactly (adds: %s, other calls: %s)' % (
                 [op_str(a) for a in ch['adds']], ch['other']), key=name + '.addr')
         root = ch['root']
-        root_ok = root is not None and root[0] == 'ref' and root[2]['l'] == 1 and \
+        def base_is_self(l):
+            # the borrowed base is parameter 1, possibly through copies / reborrows (inlined helper taking `self`)
+            for _ in range(8):
+                if l == 1:
+                    return True
+                s_ = trace_value(b, defs, {'copy': {'l': l, 'p': [], 'ty': None}})
+                return s_[-1] == ('param', 1) and all(x[0] in ('reborrow',) for x in s_[:-1])
+            return False
+        root_ok = root is not None and root[0] == 'ref' and base_is_self(root[2]['l']) and \
             [e.get('name') if isinstance(e, dict) else e for e in root[2]['p']] == ['deref', 'data']
         if not root_ok:
             ctx.add(['C04', 'C07'], 'R-PRIM', PRIM + name, 'the pointer does not derive from a borrow of self.data: %s' % (root,), key=name + '.root')
@@ -336,6 +344,26 @@ def writes_field(st, adt, name):
         if isinstance(e, dict) and e.get('adt') == adt and e.get('name') == name:
             return True
     return False
+
+
+STRING_PASSTHROUGH = re.compile(r'^(<alloc::string::String as core::(ops::deref::Deref(Mut)?|clone::Clone|borrow::Borrow(Mut)?<str>|convert::AsRef<str>)>::[a-z_]+|core::clone::Clone::clone|alloc::string::String::(as_str|as_mut_str)|<str as (alloc::borrow::ToOwned|alloc::string::ToString)>::[a-z_]+|alloc::borrow::ToOwned::to_owned|alloc::string::ToString::to_string|<alloc::string::String as core::convert::From<&str>>::from|<&str as core::convert::Into<alloc::string::String>>::into|<alloc::string::String as core::convert::From<alloc::string::String>>::from|alloc::str::<impl str>::to_owned)$')
+
+
+def string_origin(b, defs, op):
+    """Where a string value comes from: through references, derefs, clones and str/String conversions."""
+    cur = op
+    term = None
+    for _ in range(16):
+        st = trace_value(b, defs, cur)
+        term = st[-1]
+        if term[0] == 'ref' and not term[2]['p']:
+            cur = {'copy': term[2]}
+            continue
+        if term[0] == 'call' and STRING_PASSTHROUGH.match(callee_path(term[1]) or '') and term[1]['args']:
+            cur = term[1]['args'][0]
+            continue
+        break
+    return term
 
 
 def body_and_closures(crate, path):
@@ -609,19 +637,8 @@ def truc_rule_table(ctx, crate):
                 defs = defs or local_defs(b)
                 # key operand (by value or by reference)
                 key = t['args'][1]
-                st = trace_value(b, defs, key)
-                term = st[-1]
-                src = None
-                if term[0] == 'ref' and not term[2]['p']:
-                    st = trace_value(b, defs, {'copy': term[2]})
-                    term = st[-1]
-                if term[0] == 'call':
-                    src = callee_path(term[1])
-                    if src in ('<alloc::string::String as core::clone::Clone>::clone', 'core::clone::Clone::clone'):
-                        a0 = trace_value(b, defs, term[1]['args'][0])
-                        if a0[-1][0] == 'ref' and not a0[-1][2]['p']:
-                            a0 = trace_value(b, defs, {'copy': a0[-1][2]})
-                        src = callee_path(a0[-1][1]) if a0[-1][0] == 'call' else None
+                term = string_origin(b, defs, key)
+                src = callee_path(term[1]) if term[0] == 'call' else None
                 where = fmt_span(t['span'])
                 if src in norm:
                     ctx.inst('K-NORM', '%s: key of %s is %s(..)' % (b.path.split('::')[-1], p.split('::')[-1], src.split('::')[-1]))
@@ -657,7 +674,7 @@ def truc_rule_table(ctx, crate):
                 # the fallback for an unregistered type must refuse (diverge), not invent an answer
                 fb = trace_value(b, defs, t3[1]['args'][1])[-1]
                 if fb[0] == 'rv' and fb[1].get('ak') == 'closure':
-                    cbody = crate.body(fb[1]['closure'])
+                    cbody = crate.lookup(fb[1]['closure'])
                     if cbody is None or any(cbody.blocks[x]['term']['k'] == 'return' for x in cbody.reachable(0, unwind=False)):
                         ctx.add(['C18'], 'H-TABLE', b.key, 'a type that was never registered gets an answer from the fallback closure instead of being refused: the table no longer answers exactly what was registered', key='%s|fallback' % path)
                 else:
@@ -1105,14 +1122,14 @@ def truc_rule_builder(ctx, crate):
         errs = err_blocks(b)
         for e in errs:
             ctx.inst('B-PURE', '%s: error return at bb%d' % (name, e))
-        if len(errs) < nerr:
-            ctx.add(['C12'], 'B-PURE', b.key, '%s has %d error returns, %d were confirmed on the pinned tree: an invalid request is accepted somewhere' % (name, len(errs), nerr), key='%s|errs' % name)
+        if len(errs) < 1:
+            ctx.add(['C12'], 'B-PURE', b.key, '%s has no error return: an invalid request cannot be rejected' % name, key='%s|errs' % name)
         for m, what in muts.items():
-            reach = b.reachable(m, unwind=False)
+            reach = feasible_reach(b, m)
             hit = [e for e in errs if e in reach]
             if hit:
                 ctx.add(['C12'], 'B-PURE', b.key, '%s mutates the builder (%s in bb%d) on a path that then returns Err (bb%d): a rejected request changes the observable state' % (name, what, m, hit[0]), key='%s|mutate-then-err' % name)
-    ctx.floor(['C12'], 'B-PURE', 4)
+    ctx.floor(['C12'], 'B-PURE', 2)
 
     # B-GUARD-DUP
     b = crate.body(GB + 'add_datum')
@@ -1215,6 +1232,69 @@ def truc_rule_builder(ctx, crate):
                     if x[0] == 'call' and x[1]['args']:
                         return over_last_variant_data(x[1]['args'][0], depth + 1)
                     return False
+                def presence_call(bx, dx, call, data_pred):
+                    """(inner call, positive) when `call` answers whether the id is in the data `data_pred` accepts."""
+                    cp = callee_path(call) or ''
+                    if cp in ('core::option::Option::<T>::is_some', 'core::option::Option::<T>::is_none'):
+                        i0 = trace_value(bx, dx, call['args'][0])[-1]
+                        if i0[0] == 'ref':
+                            i0 = trace_value(bx, dx, {'copy': {'l': i0[2]['l'], 'p': [], 'ty': None}})[-1]
+                        if i0[0] == 'call' and ((callee_path(i0[1]) or '').endswith('::position') or (callee_path(i0[1]) or '').endswith('::find')) and data_pred(bx, dx, i0[1]['args'][0]):
+                            return cp.endswith('is_some')
+                    elif (cp.endswith('::any') or cp.endswith('::contains')) and data_pred(bx, dx, call['args'][0]):
+                        return True
+                    return None
+
+                def variant_data(bx, dx, op, depth=0):
+                    x = trace_value(bx, dx, op)[-1]
+                    if depth > 8:
+                        return False
+                    if x[0] == 'ref':
+                        names = [e.get('name') for e in x[2]['p'] if isinstance(e, dict) and 'name' in e]
+                        if 'data' in names and any(isinstance(e, dict) and e.get('adt') == T + 'RecordVariant' for e in x[2]['p']):
+                            return True
+                        if not x[2]['p']:
+                            return variant_data(bx, dx, {'copy': x[2]}, depth + 1)
+                        return False
+                    if x[0] == 'call' and x[1]['args']:
+                        return variant_data(bx, dx, x[1]['args'][0], depth + 1)
+                    return False
+
+                def mapped_presence(op):
+                    """`self.variants.last().map(|variant| <id in variant.data>)`: Option<bool> whose Some(true) means present."""
+                    x = trace_value(b, defs, op)[-1]
+                    if x[0] == 'ref' and not x[2]['p']:
+                        x = trace_value(b, defs, {'copy': x[2]})[-1]
+                    if x[0] != 'call' or callee_path(x[1]) != 'core::option::Option::<T>::map':
+                        return False
+                    src = trace_value(b, defs, x[1]['args'][0])[-1]
+                    if not (src[0] == 'call' and (callee_path(src[1]) or '').endswith('::last')):
+                        return False
+                    sfl = self_field_of(b, defs, src[1]['args'][0])
+                    if not sfl or sfl[0] != ['variants']:
+                        return False
+                    cl = trace_value(b, defs, x[1]['args'][1])[-1]
+                    if cl[0] != 'rv' or cl[1]['k'] != 'aggregate' or not cl[1].get('closure'):
+                        return False
+                    cb = crate.lookup(cl[1]['closure'])
+                    if cb is None:
+                        return False
+                    cd = local_defs(cb)
+                    r = trace_value(cb, cd, {'copy': {'l': 0, 'p': [], 'ty': None}})[-1]
+                    return r[0] == 'call' and presence_call(cb, cd, r[1], variant_data) is True
+
+                def const_some_true(op):
+                    x = trace_value(b, defs, op)
+                    for s_ in x:
+                        if s_[0] == 'const' and 'promoted' in s_[1]:
+                            pb = crate.lookup(b.path, promoted=s_[1]['promoted'])
+                            if pb is None:
+                                return False
+                            for _, _, ps in pb.statements():
+                                if ps['k'] == 'assign' and ps['rv']['k'] == 'aggregate' and ps['rv'].get('variant') == 'Some' and op_int(ps['rv']['fields'][0]) == 1:
+                                    return True
+                    return False
+
                 g2 = None
                 for sb in range(len(b.blocks)):
                     si = switch_info(b, defs, sb)
@@ -1222,6 +1302,13 @@ def truc_rule_builder(ctx, crate):
                         continue
                     call = si[1][1]
                     cp = callee_path(call) or ''
+                    if cp in ('<core::option::Option<T> as core::cmp::PartialEq>::eq', '<core::option::Option<T> as core::cmp::PartialEq>::ne', 'core::cmp::PartialEq::eq', 'core::cmp::PartialEq::ne') and len(call['args']) == 2:
+                        a0, a1 = call['args']
+                        hit = (mapped_presence(a0) and const_some_true(a1)) or (mapped_presence(a1) and const_some_true(a0))
+                        if hit:
+                            present_truth = (not cp.endswith('::ne')) != si[2]
+                            g2 = (sb, edge_for(b, sb, present_truth))
+                        continue
                     inner = None
                     if cp in ('core::option::Option::<T>::is_some', 'core::option::Option::<T>::is_none'):
                         i0 = trace_value(b, defs, call['args'][0])[-1]
@@ -1245,9 +1332,9 @@ def truc_rule_builder(ctx, crate):
                         ctx.add(['C12'], 'B-GUARD-RM', b.key, 'an id that is not in the last variant can be recorded as removed', key='absent')
                     else:
                         ctx.inst('B-GUARD-RM', 'data_to_remove.push only when the id is in the last variant (edge bb%d->bb%d)' % g2)
-        if n < 3:
-            ctx.add(['C12'], 'B-GUARD-RM', b.key, 'remove_datum performs %d list updates, 3 were confirmed on the pinned tree' % n, key='count')
-    ctx.floor(['C12'], 'B-GUARD-RM', 4)
+        if n < 2:
+            ctx.add(['C12'], 'B-GUARD-RM', b.key, 'remove_datum performs %d list updates: it needs one that records a removal and one that withdraws a pending addition' % n, key='count')
+    ctx.floor(['C12'], 'B-GUARD-RM', 3)
 
     # B-NOOP
     b = crate.body(GB + 'close_record_variant_with')
@@ -1765,7 +1852,7 @@ def fields_touched(crate, b, seen=None, depth=0):
         for bb, t in x.calls():
             p = callee_path(t) or ''
             if p.startswith(GB) and p != b.path:
-                cb = crate.body(p)
+                cb = crate.lookup(p)
                 if cb is not None:
                     out |= fields_touched(crate, cb, seen, depth + 1)
     return out
@@ -1830,7 +1917,7 @@ def truc_rule_once(ctx, crate):
     for path, fn in crate.fns.items():
         ins = fn.get('inputs') or []
         if len(ins) == 4 and ins[:3] == GEN_SIG and 'DatumDefinitionCollection' in ins[3] and fn.get('output') == GEN_SIG[0]:
-            b = crate.body(path)
+            b = crate.lookup(path)
             if b is not None and b.def_kind in ('Fn', 'AssocFn'):
                 strategies.append(b)
     for b in strategies:
